@@ -96,8 +96,11 @@ def do_PICK (flags : Nat) (s : State) : M State := do
   let (v, s) ← popNonnegative flags s
   pure (push (← peek (v + 1) s) s)
 
+/-- `vm.append(vm.pop(-v - 1))`: `list.pop` converts its index to a C `ssize_t`, so `-v - 1 < -2^63` is an
+`OverflowError` that `VM.pop` does not catch (CPython, 64-bit); `list.__getitem__` (PICK) reports `IndexError` instead -/
 def do_ROLL (flags : Nat) (s : State) : M State := do
   let (v, s) ← popNonnegative flags s
+  if v ≥ 2 ^ 63 then .error (.py "OverflowError")
   let (x, s) ← popAt (v + 1) s
   pure (push x s)
 
